@@ -89,6 +89,9 @@ def templates(tier, seed):
     # class; the twin is produced by textual substitution of the bindings
     for gi in range(80 if tier == "quick" else 1200):
         tds.append(dict(fam="groupgen", gseed=gi + 5000 * seed))
+    # chains of reuse (an instance that is itself a reuse), computed template ids, templates reading $id
+    for form in ("chain-bind", "chain-bind3", "chain-bind-shape", "chain2", "chain2-group", "chain3", "computed-id", "computed-id-loop", "reads-id", "reads-id-class", "reads-id-shadow"):
+        tds.append(dict(fam="reuse-forms", form=form))
     for form in ("prev-id", "prev-id-own-id", "prev-noid", "prev-then-ref"):
         for place in ("xy-attrs", "none"):
             tds.append(dict(fam="reuse-prev", form=form, place=place))
@@ -344,6 +347,49 @@ def build(td, wrong=False):
             wrapped = f"<defs>{tmpl}</defs>" if where == "defs" else tmpl
             d0 = "<svg>" + specs_leaf + scope + wrapped + "</g>" + "".join(reuse_doc) + "</svg>"
             d1 = "<svg>" + specs_leaf + scope + wrapped + "</g>" + "".join(twin_doc) + "</svg>"
+    elif fam == "reuse-forms":
+        kw = alloc([(6, *S), (4, *S)])
+        kp = alloc([(30, *V), (-9, *V)])
+        W, H, X, Y = f"[[{kw}]]", f"[[{kw + 1}]]", f"[[{kp}]]", f"[[{kp + 1}]]"
+        form = td["form"]
+        if form == "chain-bind":
+            # b is a reuse of a with one binding; reusing b adds another: both reach the template
+            d0 = f'<svg><specs><g id="a"><rect xy="{X} {Y}" wh="{W} {H}" text="$t $u"/></g><reuse id="b" href="#a" t="2"/></specs><reuse href="#b" u="3"/></svg>'
+            d1 = f'<svg><g class="b a"><rect xy="{X} {Y}" wh="{W} {H}" text="2 3"/></g></svg>'
+        elif form == "chain-bind3":
+            d0 = (f'<svg><specs><g id="a"><rect xy="{X} {Y}" wh="{W} {H}" text="$t $u $v"/></g><reuse id="b" href="#a" t="2"/><reuse id="c" href="#b" u="3"/></specs>'
+                  f'<reuse href="#c" v="4"/><reuse href="#b" u="8" v="9"/></svg>')
+            d1 = (f'<svg><g class="c b a"><rect xy="{X} {Y}" wh="{W} {H}" text="2 3 4"/></g><g class="b a"><rect xy="{X} {Y}" wh="{W} {H}" text="2 8 9"/></g></svg>')
+        elif form == "chain-bind-shape":
+            d0 = f'<svg><specs><rect id="a" xy="{X} {Y}" wh="{W} {H}" text="$t $u"/><reuse id="b" href="#a" t="2"/></specs><reuse href="#b" u="3"/></svg>'
+            d1 = f'<svg><rect xy="{X} {Y}" wh="{W} {H}" text="2 3" class="b a"/></svg>'
+        elif form == "chain2":
+            # b is a reuse of a with one binding; reusing b adds further bindings: all of them reach the template
+            d0 = f'<svg><specs><rect id="a" wh="$t $u"/><reuse id="b" href="#a" t="{W}"/></specs><reuse href="#b" u="{H}" x="{X}" y="{Y}"/></svg>'
+            d1 = f'<svg><rect xy="{X} {Y}" wh="{W} {H}" class="a b"/></svg>'
+        elif form == "chain2-group":
+            d0 = f'<svg><specs><g id="a"><rect xy="0 0" wh="$t $u"/></g><reuse id="b" href="#a" t="{W}"/></specs><reuse href="#b" u="{H}" x="{X}" y="{Y}"/></svg>'
+            d1 = f'<svg><g transform="translate({X}, {Y})" class="a b"><rect xy="0 0" wh="{W} {H}"/></g></svg>'
+        elif form == "chain3":
+            d0 = (f'<svg><specs><rect id="a" wh="$t $u" data-v="$v"/><reuse id="b" href="#a" t="{W}"/><reuse id="c" href="#b" u="{H}"/></specs>'
+                  f'<reuse href="#c" v="7" x="{X}" y="{Y}"/></svg>')
+            d1 = f'<svg><rect xy="{X} {Y}" wh="{W} {H}" data-v="7" class="a b c"/></svg>'
+        elif form == "computed-id":
+            d0 = f'<svg><var name="box"/><specs><rect id="${{name}}_tpl" wh="$w $h"/></specs><reuse href="#box_tpl" w="{W}" h="{H}" x="{X}" y="{Y}"/></svg>'
+            d1 = f'<svg><rect xy="{X} {Y}" wh="{W} {H}" class="box_tpl"/></svg>'
+        elif form == "computed-id-loop":
+            d0 = f'<svg><specs><loop count="2" loop-var="n"><rect id="t$n" wh="$w 2"/></loop></specs><reuse href="#t1" w="{W}" x="{X}" y="{Y}"/></svg>'
+            d1 = f'<svg><rect xy="{X} {Y}" wh="{W} 2" class="t1"/></svg>'
+        elif form == "reads-id":
+            d0 = f'<svg><specs><rect id="t" wh="$w $h" data-name="$id"/></specs><reuse id="inst" href="#t" w="{W}" h="{H}" x="{X}" y="{Y}"/></svg>'
+            d1 = f'<svg><rect id="inst" xy="{X} {Y}" wh="{W} {H}" data-name="inst" class="t"/></svg>'
+        elif form == "reads-id-class":
+            d0 = f'<svg><specs><rect id="t" wh="$w $h" class="for-$id"/></specs><reuse id="inst" href="#t" w="{W}" h="{H}" x="{X}" y="{Y}"/></svg>'
+            d1 = f'<svg><rect id="inst" xy="{X} {Y}" wh="{W} {H}" class="for-inst t"/></svg>'
+        else:
+            d0 = f'<svg><var id="outer"/><specs><rect id="t" wh="$w $h" data-name="$id"/></specs><reuse id="inst" href="#t" w="{W}" h="{H}" x="{X}" y="{Y}"/></svg>'
+            d1 = f'<svg><rect id="inst" xy="{X} {Y}" wh="{W} {H}" data-name="inst" class="t"/></svg>'
+        inst_vars.append(list(range(kw, len(vars_))))
     elif fam == "reuse-prev":
         # href="^": the previous element is the template; the rules about ids and classes are the same as for href="#id"
         kw = alloc([(6, *S), (4, *S)])
@@ -448,7 +494,10 @@ def build(td, wrong=False):
                     obls.append(Obl(f"instance{i}-independent", PASS if not foreign else FAIL, ground=True, note=",".join(foreign)))
         return obls
     name = f"{fam}/" + "/".join(f"{k}={v}" for k, v in td.items() if k != "fam")
-    return Template(name, [d0, d1], vars_, check, family=fam, role=f"C18/{fam}", cap=8, assume=assume)
+    role = f"C18/{fam}"
+    if fam == "reuse-forms" and td["form"] in ("chain2", "chain2-group", "chain3"):
+        role = "C18/nested-reuse-placement-and-size"     # role signature of an open finding
+    return Template(name, [d0, d1], vars_, check, family=fam, role=role, cap=8, assume=assume)
 
 
 import re
